@@ -70,6 +70,41 @@ pub struct Case {
     /// exclusions (known-finding regions) that changed this case during generation
     #[serde(default)]
     pub excluded: Vec<String>,
+    /// a separate scenario family (the other fields are then unused): the same URL text loaded
+    /// several times from importers in different directories
+    #[serde(default)]
+    pub repeat: Option<Repeat>,
+}
+
+/// `@import "<url>"` executed `steps.len()` times: step d = 0 directly in the entry (`proj/entry.scss`),
+/// d = 1, 2 through `proj/p<d>/go<i>.scss`, whose only statement is the same `@import "<url>"`.
+/// `present[0..3]` say whether `proj/`, `proj/p1/`, `proj/p2/` and the load path `lp/` hold a file for
+/// the URL (bit 0) and whether it is a partial (bit 1); markers are 1 + index.
+#[derive(Clone, Debug, Serialize, Deserialize, PartialEq, Eq, Hash)]
+pub struct Repeat {
+    pub url: String,
+    pub present: [u8; 4],
+    pub with_load_path: bool,
+    pub steps: Vec<u8>,
+}
+
+pub fn repeat_strategy() -> BoxedStrategy<Case> {
+    (any::<bool>(), any::<[u8; 4]>(), any::<bool>(), proptest::collection::vec(0u8..3, 3..7))
+        .prop_map(|(sub, mut present, with_load_path, steps)| {
+            present[0] |= 1; // the entry's own directory always has the file
+            Case {
+                entry: "proj/entry.scss".into(),
+                load_paths: if with_load_path { vec!["lp".into()] } else { vec![] },
+                stmt: None,
+                plain: vec![],
+                joined: false,
+                files: vec![],
+                decoys: vec![],
+                excluded: vec![],
+                repeat: Some(Repeat { url: if sub { "u/x".into() } else { "x".into() }, present, with_load_path, steps }),
+            }
+        })
+        .boxed()
 }
 
 #[derive(Clone, Debug)]
@@ -516,6 +551,7 @@ pub fn build(r: &Raw) -> Case {
         files: b.files.into_values().collect(),
         decoys,
         excluded: b.excluded,
+        repeat: None,
     }
 }
 
